@@ -157,3 +157,18 @@ prop("C08", "exploration", (120, 4000),
      text="Seeded exploration of lookup arguments in both directions: completeness with reference-checked outputs on boundary table/lookup sizes, and rejection of every single-pair, "
           "other-table and table-cell fault injected into the real prover's witness.",
      note="Multiplicity cells are overwritten by the library inside prove (set_lookup_wires) and cannot be corrupted through the proving API; padding slots conflict with pre-set values and yield a prover error.")
+
+prop("C07", "fault_enumeration", (600, 12000),
+     rule="one run = either (mode gate, 2/3 of runs) a stand-alone row of one built-in gate in a seeded parameterisation (ArithmeticGate/ArithmeticExtensionGate/MulExtensionGate num_ops, "
+          "BaseSumGate<2,3,4,8,16> limbs, ConstantGate, CosetInterpolationGate subgroup bits 1-4, ExponentiationGate power bits 1-66, PoseidonGate, PoseidonMdsGate, RandomAccessGate bits x row widths, "
+          "ReducingGate / ReducingExtensionGate coefficients) filled by the gate's own generators from boundary-biased inputs, or (mode circuit) every gate row of a generated circuit's real witness "
+          "(first 3 rows per gate type fully, then 1/8 sampled). A case = one replacement of ONE generator-written wire of the row by {v+1, 0, 1, p-1, random}: some constraint of that row must become non-zero "
+          "(observed on Gate::eval_unfiltered of that row); plus lock-step cases: honest row satisfies all constraints, exactly num_constraints() values, base-batch evaluator (batch sizes 1,4,5,8,9,32) == "
+          "extension evaluator, in-circuit evaluator (a circuit evaluating the constraints, witness generated, values read back) == native on honest/perturbed/random rows, declared degree. "
+          "distinct = (gate, parameters, row, wire, replacement); all executed cases non-trivial (value changed)",
+     technique="deterministic simulation: single-write fault injection into gate rows of the prover's witness memory; differential evaluation of the gate's evaluators on the same rows",
+     text="Every wire written by a gate's own generators is replaced in turn and the row's constraints must notice; the evaluators of each gate are compared on identical honest, perturbed and random rows. "
+          "The pinning half is single-write fault enumeration per row; the lock-step half is seeded differential sampling.",
+     note="Gates without gate-level constraints (LookupGate, LookupTableGate, NoopGate) are covered by C08/C02. Restricted-input gates (BaseSum, Exponentiation, RandomAccess, Poseidon swap) use a layout assumption for the "
+          "restricted wire; if it becomes stale the run is skipped, not failed. The degree check calls the library's gate_testing::test_low_degree under catch_unwind. CosetInterpolationGate degrees other than the default, PoseidonMdsGate "
+          "and CosetInterpolationGate in real circuits come with the recursion circuits of C06.")
